@@ -121,19 +121,23 @@ class lldp (packet_base):
     type = typelen >> 9
     length = typelen & 0x01ff
 
-    if len(array) < length:
+    if len(array) < 2 + length:
       self.msg('(lldp tlv parse) warning TLV data too short to parse (%u)'
                % (len(array),))
       return
 
-    if type in lldp.tlv_parsers:
-      self.tlvs.append(lldp.tlv_parsers[type](array[0: 2 + length]))
-      return 2 + length
-    else:
-      self.msg('(lldp tlv parse) warning unknown tlv type (%u)'
-               % (type,))
-      self.tlvs.append(unknown_tlv(array[0: 2 + length]))
-      return 2 + length
+    try:
+      if type in lldp.tlv_parsers:
+        self.tlvs.append(lldp.tlv_parsers[type](array[0: 2 + length]))
+      else:
+        self.msg('(lldp tlv parse) warning unknown tlv type (%u)'
+                 % (type,))
+        self.tlvs.append(unknown_tlv(array[0: 2 + length]))
+    except Exception as e:
+      self.msg('(lldp tlv parse) warning malformed TLV type %u: %s'
+               % (type, e))
+      return
+    return 2 + length
 
   def parse (self, raw):
     assert isinstance(raw, bytes)
@@ -349,8 +353,7 @@ class chassis_id (simple_tlv):
     return struct.pack("!B", self.subtype) + self.id
 
   def __str__ (self):
-    if self.subtype == chassis_id.SUB_MAC:
-      assert len(self.id) == 6
+    if self.subtype == chassis_id.SUB_MAC and len(self.id) == 6:
       id_str = str(EthAddr(self.id))
     else:
       id_str = ":".join(["%02x" % (x,) for x in self.id])
@@ -392,8 +395,7 @@ class port_id (simple_tlv):
     self.id = data[1:]
 
   def __str__ (self):
-    if self.subtype == chassis_id.SUB_MAC:
-      assert len(self.id) == 6
+    if self.subtype == port_id.SUB_MAC and len(self.id) == 6:
       id_str = str(EthAddr(self.id))
     else:
       id_str = ":".join(["%02x" % (x,) for x in self.id])
@@ -451,14 +453,14 @@ class management_address (simple_tlv):
     self.object_identifier = b''
 
   def _parse_data (self, data):
-    asl = ord(data[0]) - 1
-    self.address_subtype = ord(data[1])
+    asl = data[0] - 1
+    self.address_subtype = data[1]
     self.address = data[2:2+asl]
 
-    self.interface_numbering_subtype = ord(data[2+asl])
+    self.interface_numbering_subtype = data[2+asl]
     self.interface_number = struct.unpack("!L",
                                       data[2+asl+1:2+asl+1+4])[0]
-    osl = ord(data[7+asl])
+    osl = data[7+asl]
     self.object_identifier = data[7+asl+1:7+asl+1+osl]
 
   def _data_len (self):
